@@ -13,6 +13,10 @@ NOTE = ('Trusted: rustc/Kani 0.68 codegen, CBMC 6.11 symex + SMT encoder, ksmt i
 
 # property -> (claimed text, modes, design ref) ; None = not claimed (reason)
 CLAIMS = {
+    'C01': ('Order 1: every entry point end to end (residual A X = B over the reals). Order 2 (3 thorough): by composition - '
+            'data-flow wiring of every entry point to lu_solve(lu(A)) with uninterpreted floats (U), Cholesky route / LU '
+            'fallback for symmetric inputs (R), and the factorisation obligations (P A = L U per pivot outcome, L L^T = A, '
+            'triangular solves) re-run in this check (R).', 'R/U', '§4 C01'),
     'C04': ('Every operator form of Vector/Matrix element-wise arithmetic and every unary map is decided per length '
             'instance with float operations uninterpreted (U): output position i is exactly that operation applied to '
             'those operands, operands unchanged, shape kept; mismatches must panic. Reductions are decided as algebraic '
@@ -28,6 +32,10 @@ CLAIMS = {
             'decided equal to their textbook definition for every real data vector of each instance length, with shift / '
             'scale relations (R); min/max/argmin/argmax first-occurrence semantics on finite data (R, exact for '
             'comparison-only code).', 'R', '§4 C08'),
+    'C11': ('Cholesky: lower-triangular, positive diagonal, L L^T = A for SPD input (orders 1-3), non-PD input rejected; '
+            'LU: permutation, unit-lower |l|<=1, P A = L U per pivot outcome (orders 1-2, 3 thorough), slice and Matrix forms '
+            'identical; det = determinant polynomial; ipiv_parity = inversion parity for every permutation of length <= 5 '
+            '(bit-precise); triangular / Cholesky / LU solves invert their systems (R/B).', 'R/B', '§4 C11'),
     'C12': ('Every shape pair up to 3x3 (4x4 thorough) x four operators: compatible pairs give the NumPy-broadcast result '
             'entry by entry with float operations uninterpreted (U), incompatible pairs must panic; Matrix/Vector forms.',
             'U', '§4 C12'),
